@@ -21,25 +21,25 @@ fn find_needle(installer_file: &[u8], needle: &str) -> Option<String> {
         .windows(bytes.len())
         .position(|window| window == bytes)?;
 
-    let parse_char_at_position = |position: usize| {
-        let upper = installer_file[position];
-        let lower = installer_file[position + 1];
+    // None at the end of the file or for something that is not a character
+    let parse_char_at_position = |position: usize| -> Option<char> {
+        let upper = *installer_file.get(position)?;
+        let lower = *installer_file.get(position + 1)?;
 
-        let result = char::decode_utf16([((upper as u16) << 8) | lower as u16])
-            .map(|r| r.map_err(|e| e.unpaired_surrogate()))
-            .collect::<Vec<_>>();
-
-        result[0]
+        char::decode_utf16([((upper as u16) << 8) | lower as u16])
+            .next()?
+            .ok()
     };
 
     let mut string: String = String::new();
 
-    let mut last_char = parse_char_at_position(position);
-    while last_char.is_ok() && last_char.unwrap() != '\0' {
-        string.push(last_char.unwrap());
+    while let Some(last_char) = parse_char_at_position(position) {
+        if last_char == '\0' {
+            break;
+        }
+        string.push(last_char);
 
         position += 2;
-        last_char = parse_char_at_position(position);
     }
 
     Some(string)
@@ -47,7 +47,7 @@ fn find_needle(installer_file: &[u8], needle: &str) -> Option<String> {
 
 /// Extract the frontier URL from ffxivlauncher.exe
 pub fn extract_frontier_url(launcher_path: &str) -> Option<String> {
-    let installer_file = fs::read(launcher_path).unwrap();
+    let installer_file = fs::read(launcher_path).ok()?;
 
     // New Frontier URL format
     if let Some(url) = find_needle(&installer_file, "https://launcher.finalfantasyxiv.com") {
